@@ -3,7 +3,8 @@
 From Coq Require Import Sorted Permutation.
 From RS Require Import Base BaseFacts Network NetSpec NetFacts Tour TourSpec TourStmts TourFacts TourValidFacts
   TourExactStmts TourExactFacts SchedObs Transition TransSpec TransStmts TransFacts TransFacts2 Schedule SchedInv
-  SchedStruct SchedCostsFacts SchedListFacts SchedTransFacts Swaps SwapsStmts2 PipelineSched RenderStmts NoPanicStmts.
+  SchedStruct SchedCostsFacts SchedListFacts SchedTransFacts SchedUnservedFacts SchedUsageFacts SchedToursFacts SchedExactFacts Swaps SwapsStmts2
+  PipelineSched RenderStmts NoPanicStmts.
 
 (** * generic helpers *)
 Lemma no_crash_ok {A} (r : res A) a : r = Ok a -> no_crash r.
@@ -845,6 +846,324 @@ Proof.
   rewrite (zget_zset _ _ _ _ _ Eo). destruct (ty' =? ty); [discriminate|apply Q; exact Hty'].
 Qed.
 End D2.
+
+(** * formations and depot usage *)
+Lemma fold_err {S V} (f : res S -> V -> res S) l : (forall v, f Err v = Err) -> fold_left f l Err = Err.
+Proof. intros H. induction l as [|v l IH]; cbn [fold_left]; [reflexivity|]. rewrite H. exact IH. Qed.
+
+Lemma fold_nc {S V} (f : res S -> V -> res S) (Q : S -> Prop) l : (forall v, f Err v = Err) ->
+  (forall s v, In v l -> Q s -> (exists s', f (Ok s) v = Ok s' /\ Q s') \/ f (Ok s) v = Err) ->
+  forall s, Q s -> (exists s', fold_left f l (Ok s) = Ok s' /\ Q s') \/ fold_left f l (Ok s) = Err.
+Proof.
+  intros HE. induction l as [|v l IH]; intros H s Qs; cbn [fold_left]; [left; eauto|].
+  destruct (H s v (or_introl eq_refl) Qs) as [(s1 & E1 & Q1)|E1]; rewrite E1.
+  - apply IH; [|exact Q1]. intros s0 v0 Hin. apply H. right. exact Hin.
+  - right. apply fold_err. exact HE.
+Qed.
+
+Section E.
+Variable nw : network.
+
+Lemma repl_nc s f prov recv n : no_crash (replacement_in_formation nw s f prov recv n).
+Proof.
+  unfold replacement_in_formation.
+  destruct recv as [[r rty]|]; destruct prov as [p|];
+    repeat match goal with
+           | |- no_crash (if ?c then _ else _) => destruct c
+           | |- no_crash (match ?c with Some _ => _ | None => _ end) => destruct c
+           end; try apply no_crash_err; try (eapply no_crash_ok; reflexivity).
+Qed.
+
+Lemma utf_total s forms uns prov recv moved :
+  (forall n, In n moved -> is_depot (nd nw n) = false -> nget n forms <> None) ->
+  (exists fm' uns', update_train_formation nw s forms uns prov recv moved = Ok (fm', uns') /\
+                    forall n, nget n forms <> None -> nget n fm' <> None) \/
+  update_train_formation nw s forms uns prov recv moved = Err.
+Proof.
+  intros H. unfold update_train_formation.
+  match goal with |- (exists fm' uns', fold_left ?f _ _ = _ /\ _) \/ _ =>
+    destruct (fold_nc f (fun x => forall n, nget n forms <> None -> nget n (fst x) <> None) moved) with (s := (forms, uns))
+      as [([fm' uns'] & E & Q)|E] end.
+  - intros v. reflexivity.
+  - intros [fm [ua ub]] n Hn Q. cbn [bind fst] in *. destruct (is_depot (nd nw n)) eqn:D; [left; eauto|].
+    destruct (nget n fm) as [f|] eqn:Ef; [|exfalso; exact (Q n (H n Hn D) Ef)]. cbn [unwrap_opt bind].
+    destruct (no_crash_cases _ (repl_nc s f prov recv n)) as [(f' & ->)| ->]; cbn [bind]; [|right; reflexivity].
+    left. eexists. split; [reflexivity|]. cbn [fst]. intros m Hm.
+    rewrite (nset_key _ _ _ _ Ef), nget_nrepl. specialize (Q m Hm).
+    destruct (nid_eqb m n); [destruct (nget m fm); [discriminate|congruence]|exact Q].
+  - auto.
+  - left. exists fm', uns'. split; [exact E|exact Q].
+  - right. exact E.
+Qed.
+
+(** ** usage *)
+Lemma ent_pair U d ty : ent_of U d ty = (sp_of U d ty, de_of U d ty).
+Proof. unfold sp_of, de_of. destruct (ent_of U d ty); reflexivity. Qed.
+
+Lemma rm_spawn_total U d ty v : In v (sp_of U d ty) ->
+  exists U', usage_remove_spawn U d ty v = Ok U' /\
+    (forall d' ty', de_of U' d' ty' = de_of U d' ty') /\
+    (forall d' ty', sp_of U' d' ty' = if pair_eqb (d', ty') (d, ty) then set_del v (sp_of U d ty) else sp_of U d' ty').
+Proof.
+  intros H. unfold usage_remove_spawn. fold (ent_of U d ty). rewrite ent_pair.
+  apply memv_in in H. rewrite H. eexists. split; [reflexivity|]. split; intros d' ty'; unfold sp_of, de_of;
+    rewrite ent_uset; destruct (pair_eqb (d', ty') (d, ty)) eqn:Q; try reflexivity.
+  apply pair_eqb_dec in Q. destruct Q as [-> ->]. reflexivity.
+Qed.
+
+Lemma rm_despawn_total U d ty v : In v (de_of U d ty) ->
+  exists U', usage_remove_despawn U d ty v = Ok U' /\
+    (forall d' ty', sp_of U' d' ty' = sp_of U d' ty') /\
+    (forall d' ty', de_of U' d' ty' = if pair_eqb (d', ty') (d, ty) then set_del v (de_of U d ty) else de_of U d' ty').
+Proof.
+  intros H. unfold usage_remove_despawn. fold (ent_of U d ty). rewrite ent_pair.
+  apply memv_in in H. rewrite H. eexists. split; [reflexivity|]. split; intros d' ty'; unfold sp_of, de_of;
+    rewrite ent_uset; destruct (pair_eqb (d', ty') (d, ty)) eqn:Q; try reflexivity.
+  apply pair_eqb_dec in Q. destruct Q as [-> ->]. reflexivity.
+Qed.
+
+Lemma add_spawn_de U d ty v d' ty' : de_of (usage_add_spawn U d ty v) d' ty' = de_of U d' ty'.
+Proof.
+  unfold usage_add_spawn. fold (ent_of U d ty). rewrite ent_pair. unfold de_of. rewrite ent_uset.
+  destruct (pair_eqb (d', ty') (d, ty)) eqn:Q; [|reflexivity]. apply pair_eqb_dec in Q. destruct Q as [-> ->]. reflexivity.
+Qed.
+Lemma add_spawn_sp U d ty v d' ty' :
+  sp_of (usage_add_spawn U d ty v) d' ty' = if pair_eqb (d', ty') (d, ty) then set_add v (sp_of U d ty) else sp_of U d' ty'.
+Proof.
+  unfold usage_add_spawn. fold (ent_of U d ty). rewrite ent_pair. unfold sp_of at 1. rewrite ent_uset.
+  destruct (pair_eqb (d', ty') (d, ty)); reflexivity.
+Qed.
+Lemma add_despawn_sp U d ty v d' ty' : sp_of (usage_add_despawn U d ty v) d' ty' = sp_of U d' ty'.
+Proof.
+  unfold usage_add_despawn. fold (ent_of U d ty). rewrite ent_pair. unfold sp_of. rewrite ent_uset.
+  destruct (pair_eqb (d', ty') (d, ty)) eqn:Q; [|reflexivity]. apply pair_eqb_dec in Q. destruct Q as [-> ->]. reflexivity.
+Qed.
+Lemma add_despawn_de U d ty v d' ty' :
+  de_of (usage_add_despawn U d ty v) d' ty' = if pair_eqb (d', ty') (d, ty) then set_add v (de_of U d ty) else de_of U d' ty'.
+Proof.
+  unfold usage_add_despawn. fold (ent_of U d ty). rewrite ent_pair. unfold de_of at 1. rewrite ent_uset.
+  destruct (pair_eqb (d', ty') (d, ty)); reflexivity.
+Qed.
+
+(* update_depot_usage_assuming_no_dummies: total when the new tour (if any) has depots at both ends and the vehicle,
+   if it exists, is recorded where its current tour starts and ends *)
+Lemma udu_nd_total s U v ty (nt : option tour) :
+  (forall t', nt = Some t' -> is_start_depot (nd nw (first_node t')) = true /\ is_end_depot (nd nw (last_node t')) = true) ->
+  (is_vehicle s v = true -> exists t, tour_of s v = Ok t /\
+     is_start_depot (nd nw (first_node t)) = true /\ is_end_depot (nd nw (last_node t)) = true /\
+     In v (sp_of U (get_depot_idx nw (first_node t)) ty) /\ In v (de_of U (get_depot_idx nw (last_node t)) ty)) ->
+  exists U', update_depot_usage_nd nw s U v ty nt = Ok U'.
+Proof.
+  intros Hn Hv. unfold update_depot_usage_nd.
+  assert (SD : exists sd, (match nt with Some t => do x <- start_depot nw t; Ok (Some x) | None => Ok None end) = Ok sd).
+  { destruct nt as [t'|]; [|eauto]. unfold start_depot. rewrite (proj1 (Hn t' eq_refl)). cbn [bind]. eauto. }
+  assert (ED : exists ed, (match nt with Some t => do x <- end_depot nw t; Ok (Some x) | None => Ok None end) = Ok ed).
+  { destruct nt as [t'|]; [|eauto]. unfold end_depot. rewrite (proj2 (Hn t' eq_refl)). cbn [bind]. eauto. }
+  destruct SD as (sd & ->). destruct ED as (ed & ->). cbn [bind].
+  destruct (is_vehicle s v) eqn:IV; [|cbn [bind]; eauto].
+  destruct (Hv eq_refl) as (t & Ht & S & E & Isp & Ide). rewrite Ht. cbn [bind].
+  unfold start_depot, end_depot. rewrite S, E. cbn [bind].
+  destruct (rm_spawn_total U _ ty v Isp) as (U1 & -> & D1 & _). cbn [bind].
+  match goal with |- exists U', bind (usage_remove_despawn ?U2 ?d ty v) _ = _ =>
+    destruct (rm_despawn_total U2 d ty v) as (U3 & -> & _) end.
+  - destruct sd as [x|]; [rewrite add_spawn_de|]; rewrite D1; exact Ide.
+  - cbn [bind]. eauto.
+Qed.
+End E.
+
+(** * schedule-level consequences of [Good] *)
+Lemma tsum_nn l : (forall k t, In (k, t) l -> 0 <= t_costs t) -> 0 <= tsum l.
+Proof.
+  induction l as [|[k t] l IH]; intros H; [unfold tsum, z_sum; cbn; lia|]. rewrite tsum_cons.
+  pose proof (H k t (or_introl eq_refl)). assert (0 <= tsum l) by (apply IH; intros; eapply H; right; eauto). lia.
+Qed.
+
+Lemma vget_in {A} v (l : list (vehicle_id * A)) x : vget v l = Some x -> In (v, x) l.
+Proof. unfold vget. intros H. apply (assoc_in _ vid_eqb_eq) in H. exact H. Qed.
+
+Lemma in_vget {A} v (l : list (vehicle_id * A)) x : NoDup (map fst l) -> In (v, x) l -> vget v l = Some x.
+Proof.
+  induction l as [|[k y] l IH]; intros N H; [destruct H|]. rewrite vget_cons. cbn [map fst] in N. inversion N; subst.
+  destruct H as [H|H].
+  - inversion H; subst. rewrite vid_eqb_refl. reflexivity.
+  - destruct (vid_eqb v k) eqn:E; [|apply IH; assumption].
+    apply vid_eqb_eq in E. subst. exfalso. apply H2. apply in_map_iff. exists (k, x). auto.
+Qed.
+
+Lemma tsum_ge l v t : NoDup (map fst l) -> (forall k t, In (k, t) l -> 0 <= t_costs t) -> vget v l = Some t ->
+  t_costs t <= tsum l.
+Proof.
+  intros N H G. pose proof (tsum_vdel v l t N G) as E.
+  assert (0 <= tsum (vdel v l)).
+  { apply tsum_nn. intros k t' Hin. unfold vdel in Hin. apply filter_In in Hin. eapply H. apply Hin. }
+  lia.
+Qed.
+
+Lemma in_keys_nget {A} n (l : list (node_id * A)) : In n (map fst l) -> nget n l <> None.
+Proof.
+  unfold nget. induction l as [|[k y] l IH]; intros H; [destruct H|]. cbn [assoc].
+  destruct (nid_eqb n k) eqn:E; [discriminate|]. cbn [map fst] in H. destruct H as [->|H]; [|apply IH; exact H].
+  rewrite nid_eqb_refl in E. discriminate.
+Qed.
+
+Section F.
+Variable nw : network.
+Hypothesis NF : net_fine nw.
+Hypothesis NX : net_extra_b nw = true.
+Hypothesis DF : dists_finite_b nw = true.
+Hypothesis DH : dh_dists_finite_b nw = true.
+Notation d0 := (SD 0).
+Let WFb := WF nw NF.
+Let DPb := DP nw NF.
+
+Lemma nondepot_coverable n : is_depot (nd nw n) = false -> In n (coverable_nodes nw).
+Proof.
+  intros D. destruct (NX_parts nw NX) as (_ & _ & _ & H). unfold nodes_coverable_b in H.
+  apply andb_true_iff in H. destruct H as [H _]. rewrite forallb_forall in H.
+  unfold nd in D. destruct (assoc nid_eqb n (nw_nodes nw)) as [x|] eqn:E; [|discriminate D].
+  apply (assoc_in _ nid_eqb_eq) in E. specialize (H _ E). cbn in H.
+  destruct x; cbn in D, H; try discriminate D; apply mem_nid_in in H; exact H.
+Qed.
+
+Section S.
+Variable s : schedule.
+Hypothesis G : Good nw s.
+
+Lemma vpart : VPart nw (s_vehicles s) (s_tours s) (s_ids s).
+Proof.
+  destruct (g_listing _ _ G). constructor; auto.
+  intros v. rewrite !vget_none_keys. rewrite (lo_same_keys v). tauto.
+Qed.
+
+Lemma nondepot_has_form n : is_depot (nd nw n) = false -> nget n (s_forms s) <> None.
+Proof.
+  intros D. apply in_keys_nget. apply (fo_keys _ _ (g_forms _ _ G)). apply nondepot_coverable. exact D.
+Qed.
+
+Lemma tok : TOK nw (s_trans s) (tfn nw (s_tours s)) (s_ids s).
+Proof. apply TransOK_TOK. exact (g_trans _ _ G). Qed.
+
+Lemma tour_cost_le v t : vget v (s_tours s) = Some t -> t_costs t <= s_costs s /\ 0 <= t_costs t.
+Proof.
+  intros H. destruct (g_costs _ _ G) as [N E]. destruct (g_exact _ _ G) as [EX _].
+  assert (NNall : forall k t', In (k, t') (s_tours s) -> 0 <= t_costs t').
+  { intros k t' Hin. apply (exact_costs_nn nw NF NX). apply (EX k). apply in_vget; assumption. }
+  pose proof (tsum_ge _ _ _ N NNall H) as L. fold (tsum (s_tours s)) in E.
+  destruct (rates_nn nw NX) as (_ & _ & _ & _ & R & _). split; [lia|]. eapply NNall. apply vget_in. exact H.
+Qed.
+
+(* everything about one existing vehicle *)
+Lemma veh_facts v : is_vehicle s v = true ->
+  exists ty t, vget v (s_vehicles s) = Some ty /\ In ty (type_ids nw) /\ vid_is_real v = true /\
+    vget v (s_tours s) = Some t /\ tour_of s v = Ok t /\ is_dummy s v = false /\
+    t_dummy t = false /\ RV nw (t_nodes t) /\ tour_exact nw t /\
+    In v (sp_of (s_usage s) (get_depot_idx nw (first_node t)) ty) /\
+    In v (de_of (s_usage s) (get_depot_idx nw (last_node t)) ty).
+Proof.
+  unfold is_vehicle. destruct (vget v (s_vehicles s)) as [ty|] eqn:Hv; [|discriminate]. intros _.
+  destruct (veh_has_tour nw s G v ty Hv) as (t & Ht). exists ty, t.
+  destruct (real_tour_facts nw s G v ty t Hv Ht) as (D & R & _).
+  split; [reflexivity|]. split; [eapply veh_type_in; eauto|]. split; [eapply veh_real; eauto|]. split; [exact Ht|].
+  split; [eapply tour_of_real_eq; eauto|]. split; [unfold is_dummy; rewrite (veh_not_dummy nw s G v ty Hv); reflexivity|].
+  split; [exact D|]. split; [exact R|]. split; [apply (proj1 (g_exact _ _ G) v t Ht)|].
+  split.
+  - apply (uo_spawned _ _ (g_usage _ _ G)). exists t. auto.
+  - apply (uo_despawned _ _ (g_usage _ _ G)). exists t. auto.
+Qed.
+
+Lemma RV_TV t : t_dummy t = false -> RV nw (t_nodes t) -> TV nw t.
+Proof. unfold TV. intros ->. auto. Qed.
+Lemma RV_shape t : t_dummy t = false -> RV nw (t_nodes t) -> shape nw t.
+Proof. unfold shape. intros ->. auto. Qed.
+
+Lemma utf_tour_total forms uns prov recv moved :
+  (forall n, nget n (s_forms s) <> None -> nget n forms <> None) ->
+  (exists fm' uns', update_train_formation nw s forms uns prov recv moved = Ok (fm', uns') /\
+                    forall n, nget n (s_forms s) <> None -> nget n fm' <> None) \/
+  update_train_formation nw s forms uns prov recv moved = Err.
+Proof.
+  intros K. destruct (utf_total nw s forms uns prov recv moved) as [(fm' & uns' & E & Q)|E]; [| |right; exact E].
+  - intros n _ D. apply K. apply nondepot_has_form. exact D.
+  - left. exists fm', uns'. split; [exact E|]. intros n Hn. apply Q. apply K. exact Hn.
+Qed.
+
+(** ** replace_vehicle_by_dummy *)
+Lemma replace_vehicle_nc v : no_crash (replace_vehicle_by_dummy nw s v).
+Proof.
+  unfold replace_vehicle_by_dummy. destruct (is_vehicle s v) eqn:IV; cbn [negb]; [|apply no_crash_err].
+  destruct (veh_facts v IV) as (ty & t & Hv & Ity & Rv & Ht & Hto & ND & D & R & EX & Isp & Ide).
+  unfold vehicle_type_of. rewrite Hv. cbn [ok_or_err bind].
+  pose proof vpart as VP.
+  assert (IR : exists ids', ids_remove ty v (s_ids s) = Ok ids').
+  { unfold ids_remove. pose proof (proj1 (v_ids _ _ _ _ VP v ty) Hv) as Hin. unfold SchedListFacts.iter in Hin.
+    destruct (zget ty (s_ids s)) as [l|]; [|exfalso; exact Hin]. cbn [unwrap_opt bind]. unfold sorted_remove.
+    rewrite (proj2 (memv_in v l) Hin). cbn [bind]. eauto. }
+  destruct IR as (ids' & IR). rewrite IR. cbn [bind]. rewrite Ht. cbn [unwrap_opt bind].
+  destruct (utf_tour_total (s_forms s) (s_unserved s) (Some v) None (t_nodes t)) as [(fm' & uns' & -> & _)| ->];
+    [auto| |apply no_crash_err]. cbn [bind].
+  assert (UD : exists u', update_depot_usage nw s (s_usage s) (vdel v (s_vehicles s)) (vdel v (s_tours s)) v = Ok u').
+  { unfold update_depot_usage. rewrite vget_vdel, vid_eqb_refl, Hv.
+    destruct (udu_nd_total nw s (s_usage s) v ty None) as (u' & ->); [discriminate| |eauto].
+    intros _. exists t. repeat split; auto; [apply RV_first|apply RV_last]; exact R. }
+  destruct UD as (u' & ->). cbn [bind].
+  destruct (z_sub_cost_total (s_costs s) (t_costs t)) as (c & -> & _); [apply tour_cost_le with (v := v); exact Ht|].
+  cbn [bind].
+  assert (SP : exists sp, sub_path nw t (first_node t, last_node t) = Ok sp).
+  { pose proof R as (NE & C & S & E & x & Hx & Dx). eexists.
+    apply (sub_path_total nw t 0%nat (length (t_nodes t) - 1)%nat).
+    - exact (proj1 NF).
+    - apply (connected_chrono nw WFb DPb). exact C.
+    - exact C.
+    - apply (connected_nodup nw WFb DPb). exact C.
+    - unfold first_node, nth_node. apply nth_error_nth'. destruct (t_nodes t); [congruence|cbn; lia].
+    - unfold last_node, nth_node, tlen. apply nth_error_nth'. destruct (t_nodes t); [congruence|cbn; lia].
+    - lia.
+    - unfold ref_sub_path, all_depots. cbn [skipn]. rewrite firstn_all2 by lia.
+      apply (forallb_false_ex _ _ x Hx). exact Dx. }
+  destruct SP as (sp & ->). cbn [bind].
+  destruct (update_transitions_total nw s (vdel v (s_vehicles s)) (vdel v (s_tours s)) ids' VP
+              (V_remove nw _ _ _ v ty ids' VP Hv IR) (stab_vdel _ v) (s_trans s) (s_viol s) [v] tok (nodup_filter_one v))
+    as ([tr vi] & UT).
+  { intros x [<-|[]] _. left. exact IV. }
+  match goal with |- context [tour_new_dummy nw ?X] => destruct (tour_new_dummy nw X) as [dt| | |] end;
+  unfold add_dummy_tour; cbv beta iota zeta; rewrite UT; cbn [bind]; eapply no_crash_ok; reflexivity.
+Qed.
+
+(** ** remove_segment *)
+Theorem remove_segment_nc seg v : no_crash (remove_segment nw s seg v).
+Proof.
+  unfold remove_segment. destruct (is_vehicle s v) eqn:IV; cbn [negb]; [|apply no_crash_err].
+  destruct (veh_facts v IV) as (ty & t & Hv & Ity & Rv & Ht & Hto & ND & D & R & EX & Isp & Ide).
+  rewrite Hto. cbn [bind].
+  destruct (no_crash_cases _ (remove_total nw NF NX t seg (RV_shape t D R) EX)) as [([shr removed] & E)|E];
+    rewrite E; cbn [bind]; [|apply no_crash_err].
+  destruct shr as [nt|]; [|apply replace_vehicle_nc].
+  destruct (remove_valid nw t seg _ _ (RV_TV t D R) E) as (i & j & _ & _ & _ & _ & _ & _ & Dn & TVn & _).
+  assert (Rn : RV nw (t_nodes nt)) by (unfold TV in TVn; rewrite Dn, D in TVn; exact TVn).
+  pose proof (remove_E nw WFb DF DH t seg nt removed (RV_TV t D R) EX E) as EXn.
+  destruct (utf_tour_total (s_forms s) (s_unserved s) (Some v) None removed) as [(fm' & uns' & -> & _)| ->];
+    [auto| |apply no_crash_err]. cbn [bind].
+  unfold update_tour_and_costs. rewrite ND, Ht. cbn [unwrap_opt bind].
+  destruct (z_sub_cost_total (s_costs s + t_costs nt) (t_costs t)) as (c & -> & _).
+  { pose proof (tour_cost_le v t Ht). pose proof (exact_costs_nn nw NF NX nt EXn). lia. }
+  cbn [bind].
+  assert (UD : exists u', update_depot_usage nw s (s_usage s) (s_vehicles s) (vset v nt (s_tours s)) v = Ok u').
+  { unfold update_depot_usage. rewrite Hv, vget_vset, vid_eqb_refl.
+    destruct (udu_nd_total nw s (s_usage s) v ty (Some nt)) as (u' & ->); [| |eauto].
+    - intros t' Q. injection Q as <-. split; [apply RV_first|apply RV_last]; exact Rn.
+    - intros _. exists t. repeat split; auto; [apply RV_first|apply RV_last]; exact R. }
+  destruct UD as (u' & ->). cbn [bind].
+  pose proof vpart as VP.
+  destruct (update_transitions_total nw s (s_vehicles s) (vset v nt (s_tours s)) (s_ids s) VP
+              (V_tours_vset_old nw _ _ _ v nt t VP Ht) (fun x a b H1 H2 => eq_trans (eq_sym (f_equal (fun o => match o with Some z => z | None => a end) H1)) (f_equal (fun o => match o with Some z => z | None => a end) H2))
+              (s_trans s) (s_viol s) [v] tok (nodup_filter_one v))
+    as ([tr vi] & UT).
+  { intros x [<-|[]] _. left. exact IV. }
+  match goal with |- context [tour_new_dummy nw ?X] => destruct (tour_new_dummy nw X) as [dt| | |] end;
+  unfold add_dummy_tour; cbv beta iota zeta; rewrite UT; cbn [bind]; eapply no_crash_ok; reflexivity.
+Qed.
+End S.
+End F.
 
 Theorem candidates_no_crash : forall nw, stmt_candidates_no_crash nw.
 Proof.
